@@ -44,8 +44,11 @@ def generic_tags(prop, pred, reset, ev):
     return t
 
 
-def run_plan(prop, tier, seed, t0, mcs, traces, level, assumptions, rule, tagger=generic_tags, extra_cov=None, extra_cov_fn=None):
+def run_plan(prop, tier, seed, t0, mcs, traces, level, assumptions, rule, tagger=generic_tags, extra_cov=None, extra_cov_fn=None, famchecks=()):
     known = load_known()
+    # binding of the INPUT families: what TLC builds from spec/Family.tla = what the harness enumerates (set equality; a
+    # disagreement is an error of the machinery, exit 2, never a verdict)
+    fam_results = [family_agreement(prop, n, cfg, fam) for (n, cfg, fam) in famchecks]
     mc_results, tr_results = [], []
     nviol, nknown = 0, {}
     samples = []
@@ -163,6 +166,8 @@ def run_plan(prop, tier, seed, t0, mcs, traces, level, assumptions, rule, tagger
            "l1_drift": drift_total, "l1_drift_samples": drift_samples, "trace_stats": stats_total,
            "known_findings_hit": nknown, "rule": rule,
            "evaluations": events + transitions, "distinct_nontrivial": max(2, states + stats_total.get("nontrivial", groups))}
+    if fam_results:
+        cov["input_family_agreement"] = fam_results
     if replayed["behaviours"]:
         cov["spec_behaviours_replayed_in_impl"] = replayed["behaviours"]
         cov["spec_behaviours_replay_mismatch"] = replayed["mismatch"]
@@ -210,7 +215,9 @@ def plan_C04(prop, tier, seed, t0):
                     "TRACE: one execution = one diagram on which all 15 rules x all argument tuples (vertices, equal pairs, "
                     "boundaries, two missing names) were tried in both backends; non-trivial = accepted applications, "
                     "each decided by Den(post) = Den(pre) in TLC"
-                    "; GENERIC: the clause 'to floating-point tolerance' - seeded inputs whose phases are NOT multiples of pi/4 (n/d, d in 3,5,6,7,8,12,16; float-approximate scalars): the harness compares with its independent float reference evaluator (harness/src/refeval.rs, validated entry by entry against the exact Den / CircSem by Trace_Tensor!RefEvalOK in the C08 check) at 1e-9 and logs booleans, TLC judges them")
+                    "; GENERIC: the clause 'to floating-point tolerance' - seeded inputs whose phases are NOT multiples of pi/4 (n/d, d in 3,5,6,7,8,12,16; float-approximate scalars): the harness compares with its independent float reference evaluator (harness/src/refeval.rs, validated entry by entry against the exact Den / CircSem by Trace_Tensor!RefEvalOK in the C08 check) at 1e-9 and logs booleans, TLC judges them",
+                    famchecks=[("a", "MC_Family_a.cfg", "k=2,tys=ZX,phs=01247,ets=NH,nb=2"), ("bb", "MC_Family_bb.cfg", "k=1,tys=ZX,phs=01,ets=NH,nb=1,bb=1"),
+                               ("z3", "MC_Family_z3.cfg", "k=3,tys=Z,phs=02,ets=H,nb=1")])
 
 
 def plan_C01(prop, tier, seed, t0):
@@ -271,7 +278,8 @@ def plan_C10(prop, tier, seed, t0):
     return run_plan(prop, tier, seed, t0, mcs, traces, "model_checking", COMMON_ASSUME,
                     "as C04/C01/C02 with boolean variables (including variable 0) on spiders: soundness is DenV(post) = DenV(pre), i.e. "
                     "equality of the denotation under EVERY assignment, instantiation done by the specification (Inst) from the logged "
-                    "vars and scalar factors; circuits with measure / measure-reset are compared with the projected map per outcome")
+                    "vars and scalar factors; circuits with measure / measure-reset are compared with the projected map per outcome",
+                    famchecks=[("v", "MC_Family_v.cfg", "k=2,tys=ZX,phs=014,ets=NH,nb=1,vars=01")])
 
 
 def plan_C02(prop, tier, seed, t0):
